@@ -91,8 +91,8 @@ type outcome struct {
 	Sent     int    // messages the server streamed
 	Escaped  string // panic value that left the handler (direct mode only)
 	EscStack string
-	Timeout  bool // grpc mode: wall-clock guard fired (inconclusive only)
-	Blocked  bool // stream that only ended when its context was cancelled
+	Timeout  bool          // grpc mode: wall-clock guard fired (inconclusive only)
+	Blocked  bool          // stream that only ended when its context was cancelled
 	Resp     proto.Message // direct mode, unary: the reply
 }
 
@@ -228,14 +228,23 @@ func newWire(srv any) (*wire, error) {
 	return w, nil
 }
 
-func (w *wire) close() {
+// close shuts the pair down and reports whether every handler had returned (Stop waits for
+// them; a handler that never returns is given 15 s of wall time, then left behind).
+func (w *wire) close() bool {
 	_ = w.conn.Close()
-	w.srv.Stop()
-	_ = w.lis.Close()
+	done := make(chan struct{})
+	go func() { w.srv.Stop(); close(done) }()
+	select {
+	case <-done:
+		_ = w.lis.Close()
+		return true
+	case <-time.After(15 * time.Second):
+		return false
+	}
 }
 
 const (
-	grpcGuard      = 40 * time.Second        // wall-clock guard, produces "inconclusive" only
+	grpcGuard      = 40 * time.Second       // wall-clock guard, produces "inconclusive" only
 	grpcStreamPeek = 100 * time.Millisecond // how long a server stream may stay silent before the client cancels
 )
 
